@@ -85,7 +85,18 @@ func newClient(localID []byte, conn net.Conn, peerFeed chan P2PMessage, inBound 
 }
 
 func (c *client) handShake(ctx context.Context) (err chan error) {
+	// the id exchange is bounded by the caller's deadline: a peer that accepts the connection and
+	// then stays silent must not block the caller for ever (the call handler serves every
+	// outgoing request of the node)
+	if dl, ok := ctx.Deadline(); ok {
+		c.conn.SetDeadline(dl)
+	}
 	return utils.MergeErrors(ctx, c.sendID(ctx), c.receiveID(ctx))
+}
+
+// handShakeDone lifts the deadline set for the id exchange
+func (c *client) handShakeDone() {
+	c.conn.SetDeadline(time.Time{})
 }
 
 func (c *client) receiveID(ctx context.Context) (errc chan error) {
